@@ -93,43 +93,58 @@ impl FromStr for Imm {
     type Err = ();
 
     fn from_str(s: &str) -> Result<Self, Self::Err> {
+        // Apply the sign to a parsed magnitude and check that the result fits
+        // in 32 bits (signed, or unsigned for the bit-pattern notations).
+        fn with_sign(negative: bool, magnitude: i64, allow_unsigned: bool) -> Result<Imm, ()> {
+            let value = if negative { -magnitude } else { magnitude };
+            let max = if allow_unsigned {
+                i64::from(u32::MAX)
+            } else {
+                i64::from(i32::MAX)
+            };
+            if value < i64::from(i32::MIN) || value > max {
+                return Err(());
+            }
+            // Keep the low 32 bits (two's complement)
+            #[allow(clippy::cast_possible_truncation)]
+            Ok(Imm(value as i32))
+        }
+
         let s = s.to_lowercase();
         let s = s.as_str();
         let s = s.trim();
-        let (s, mul) = if let Some(stripped) = s.strip_prefix('-') {
-            (stripped, -1)
+        let (s, negative) = if let Some(stripped) = s.strip_prefix('-') {
+            (stripped, true)
         } else {
-            (s, 1)
+            (s, false)
         };
 
         if s == "zero" {
             Ok(Imm(0))
         } else if let Some(stripped) = s.strip_prefix("0x") {
-            if stripped.starts_with('-') {
+            if stripped.starts_with('-') || stripped.starts_with('+') {
                 Err(())
             } else {
                 match u32::from_str_radix(stripped, 16) {
-                    #[allow(clippy::cast_possible_wrap)]
-                    Ok(i) => Ok(Imm(mul * i as i32)),
+                    Ok(i) => with_sign(negative, i64::from(i), true),
                     Err(_) => Err(()),
                 }
             }
         } else if let Some(stripped) = s.strip_prefix("0b") {
-            if stripped.starts_with('-') {
+            if stripped.starts_with('-') || stripped.starts_with('+') {
                 Err(())
             } else {
                 match u32::from_str_radix(stripped, 2) {
-                    #[allow(clippy::cast_possible_wrap)]
-                    Ok(i) => Ok(Imm(mul * i as i32)),
+                    Ok(i) => with_sign(negative, i64::from(i), true),
                     Err(_) => Err(()),
                 }
             }
         } else {
-            if s.starts_with('-') {
+            if s.starts_with('-') || s.starts_with('+') {
                 return Err(());
             }
-            match s.parse::<i32>() {
-                Ok(i) => Ok(Imm(mul * i)),
+            match s.parse::<u32>() {
+                Ok(i) => with_sign(negative, i64::from(i), false),
                 Err(_) => Err(()),
             }
         }
